@@ -397,7 +397,7 @@ func H_C06_nelems() {
 	n := c08Arity(op)
 	xs := make([]T, n)
 	for i := range xs {
-		xs[i], _ = mk(vrt.Nm("x", i), opShape(), vrt.Bool(vrt.Nm("tr", i)))
+		xs[i], _ = mk(vrt.Nm("x", i), opShapeOf(op, i), vrt.Bool(vrt.Nm("tr", i)))
 	}
 	y, err := c08Apply(op, xs)
 	if err != nil || y == nil {
